@@ -340,3 +340,8 @@ enum TaskResult {
     ScanDir(Result<Directory, PathError>),
     Preprocess(Result<PpResult, PpError>),
 }
+
+#[cfg(feature = "verif")]
+pub mod verif_api {
+    pub use super::pp::{preprocess, Directive, DirectiveType, PpResult};
+}
